@@ -354,18 +354,57 @@ def single_loop_list(I, tree, ref):
     return None
 
 
-def check_argument(I, tree, arg, step, H, V):
-    """arg must be the copy of step's dataTable / docString (interpolated with H, V when given)."""
+def check_argument(I, tree, arg, step, H, V, guards=None):
+    """arg must be the copy of step's dataTable / docString (interpolated with H, V when given), present exactly when the
+    step has one - decided per case over ('dataTable' in step, 'docString' in step), whatever shape the selection has."""
+    import itertools
     probs = []
     dt_in = key_in("dataTable", step)
     ds_in = key_in("docString", step)
-    # shape: cond(dataTable in step, DT, cond(docString in step, DS, None))
-    if not (arg[0] == "cond" and arg[1] == dt_in):
-        return [f"argument is not selected by 'dataTable' in step: {fmt(arg, I)}"]
-    dt, rest = arg[2], arg[3]
-    if not (rest[0] == "cond" and rest[1] == ds_in and is_const(rest[3], None)):
-        return [f"argument is not docString-or-nothing on the other path: {fmt(rest, I)}"]
-    ds = rest[2]
+
+    def guard_holds(c, pol, assign):
+        if c[0] == "cmp" and c[1] == "Is" and is_const(c[3], None):
+            leaf = nf.resolve_conds(c[2], assign)
+            if is_const(leaf):
+                return (leaf[1] is None) == pol
+            if leaf[0] in ("ref", "tuple"):
+                return (False) == pol
+            return None
+        try:
+            return nf.eval_test(c, assign) == pol
+        except KeyError:
+            return None
+
+    atoms = set(nf.cond_atoms(("pair", arg) + tuple(c for c, _ in guards or ())))
+    extra_atoms = {a_ for a_ in atoms if a_ not in (dt_in, ds_in) and not (a_[0] == "cmp" and a_[1] == "Is")}
+    if extra_atoms:
+        return [f"argument depends on {[fmt(a_, I) for a_ in sorted(extra_atoms, key=str)][:3]}, not only on which argument the step has"]
+    dt = ds = None
+    for has_dt, has_ds in itertools.product((True, False), repeat=2):
+        assign = {dt_in: has_dt, ds_in: has_ds}
+        leaf = nf.resolve_conds(arg, assign)
+        if guards is not None:
+            hs = [guard_holds(c, p_, assign) for c, p_ in guards]
+            if any(h is None for h in hs):
+                return [f"'argument' is set under a guard that is not decided by which argument the step has: {[(fmt(c, I), p_) for c, p_ in guards]}"]
+            is_set = all(hs)
+            if is_set != (has_dt or has_ds):
+                probs.append(f"'argument' is not set exactly when an argument exists (case dataTable={has_dt}, docString={has_ds}: set={is_set})")
+                continue
+        elif not (has_dt or has_ds):
+            if not is_const(leaf, None):
+                probs.append(f"a step without argument gets {fmt(leaf, I)[:80]}")
+            continue
+        if not (has_dt or has_ds):
+            continue
+        if has_dt:
+            if dt is not None and leaf != dt:
+                probs.append("the data table argument differs between cases")
+            dt = leaf
+        else:
+            ds = leaf
+    if dt is None or ds is None or probs:
+        return probs or ["argument cases could not be separated"]
     d = nf.resolve_ref_dict(I, dt, tree)
     if d is None or set(d) != {"dataTable"}:
         probs.append(f"data table argument envelope has keys {sorted(map(str, d or []))}")
@@ -706,9 +745,7 @@ def rule_steps(rep: Report, rid_order="C07.order", rid_guard="C07.guard", rid_fr
                            found="no 'argument' key is ever set", **kw)
                 else:
                     v, g = arg
-                    probs = check_argument(I, c.tree, v, step, H, V)
-                    if not g or [x for x in g] not in ([(("cmp", "Is", v, NONE), False)], [nf.norm_guard(nf.isnone(v), False)]):
-                        probs.append(f"'argument' is not set exactly when an argument exists (guard {[(fmt(a, I), p) for a, p in (g or [])]})")
+                    probs = check_argument(I, c.tree, v, step, H, V, guards=list(g or []))
                     rep.ob(rid, f"{tag}: {which} pickle step argument is the step's table/doc string copied cell by cell"
                            + (", interpolated" if outline_own else ", not substituted"), not probs,
                            expected="{'dataTable': rows x cells x value} | {'docString': content (+ mediaType if present)}",
